@@ -369,7 +369,7 @@ func checkJSONNil(c *Ctx, fn *ssa.Function) {
 			if _, isPtr := ft.Underlying().(*types.Pointer); !isPtr {
 				continue
 			}
-			fname := st.Field(fa.Field).Name()
+			fname := fieldNameOf(st.Field(fa.Field))
 			for _, u := range *fa.Referrers() {
 				ld, ok := u.(*ssa.UnOp)
 				if !ok {
